@@ -8,11 +8,11 @@ PRELUDE = "import enum, os\nclass E(enum.Enum):\n    A = 1\n    B = 'b'\n"
 ENV = {}
 exec(PRELUDE, ENV)
 OBJS = ["os", "int", "E.A", "E"]
-OBJ_ATTRS = ["path", "ptah", "value", "name", "A", "real", "__name__", "sep"]
+OBJ_ATTRS = ["path", "ptah", "value", "name", "A", "real", "__name__", "sep", "__dict__", "__class__"]
 LITS = ["1", "0", "-3", "True", "1.5", "'ab'", "''", "b'x'", "(1, 2)", "()", "None", "[1]"]
 BINOPS = ["+", "-", "*", "//", "%", "**", "|", "&", "<<"]
 UNOPS = ["-", "+", "~", "not "]
-ATTRS = ["real", "upper", "count", "bit_length", "nope", "__len__"]
+ATTRS = ["real", "upper", "count", "bit_length", "nope", "__len__", "__dict__", "__class__", "__doc__"]
 
 
 def _eval(expr):
